@@ -1,16 +1,9 @@
-import CwPlus.Driver.Common
-import CwPlus.Driver.Cw20
+import CwPlus.Driver.All
 /-!
 Line-protocol driver: reads a trace file on stdin, runs every trace on the
 model of its scenario, prints findings and one summary line per trace.
 -/
 open CwPlus CwPlus.Driver
-
-def runOne (header : String) (body : List String) : List String :=
-  match (Wire.tokens header) with
-  | _ :: "cw20" :: _ => runTrace Cw20.scen header body
-  | _ :: name :: _ => [s!"T ? ERROR unknown-scenario={name}"]
-  | _ => ["T ? ERROR bad-header"]
 
 partial def readAll (h : IO.FS.Stream) (acc : Array String) : IO (Array String) := do
   let line ← h.getLine
